@@ -429,6 +429,7 @@ pub fn main(tier: Tier) -> ! {
     let pi = jq::compile_full(&format!("try fromdate catch \"{E}\""), &[]).unwrap();
     let base = days_from_civil(1955, 11, 12) * 86400 + 22 * 3600 + 4 * 60;
     let mut texts: Vec<(String, Option<(i64, i64)>)> = vec![]; // text, expected (seconds, micros)
+    let mut comma_texts: Vec<(String, (i64, i64))> = vec![];
     for (z, off) in [("Z", 0i64), ("+00:00", 0), ("-00:00", 0), ("-08:00", -8 * 3600), ("+14:00", 14 * 3600), ("+05:30", 5 * 3600 + 1800), ("z", 0)] {
         texts.push((format!("1955-11-12T22:04:00{z}"), Some((base - off, 0))));
         texts.push((format!("1955-11-12t22:04:00{z}"), Some((base - off, 0))));
@@ -437,6 +438,8 @@ pub fn main(tier: Tier) -> ! {
             let f = &fracs[..digits];
             let micros: i64 = format!("{:0<6}", &f[..digits.min(6)]).parse().unwrap();
             texts.push((format!("1955-11-12T22:04:00.{f}{z}"), Some((base - off, micros))));
+            // ISO 8601 also allows a comma as decimal sign: if the text is accepted, it denotes the same instant
+            comma_texts.push((format!("1955-11-12T22:04:00,{f}{z}"), (base - off, micros)));
         }
     }
     for bad in ["1955-13-12T22:04:00Z", "1955-11-31T22:04:00Z", "1955-02-29T00:00:00Z", "1955-11-12T24:04:00Z", "1955-11-12T22:60:00Z", "1955-11-12T22:04:61Z", "1955-11-12", "22:04:00Z", "1955-11-12T22:04:00", "", "x", "10000-01-01T00:00:00Z", "1955-00-12T22:04:00Z", "1955-11-00T22:04:00Z"] {
@@ -445,6 +448,17 @@ pub fn main(tier: Tier) -> ! {
     texts.push(("2000-02-29T23:59:59Z".into(), Some((days_from_civil(2000, 2, 29) * 86400 + 86399, 0))));
     texts.push(("0001-01-01T00:00:00Z".into(), Some((days_from_civil(1, 1, 1) * 86400, 0))));
     texts.push(("9998-12-31T23:59:59Z".into(), Some((days_from_civil(9998, 12, 31) * 86400 + 86399, 0))));
+    for (text, (s, us)) in &comma_texts {
+        let key = format!("fromdate {text:?}");
+        let out = jq::run_trace(&pi, jq::to_val(&rv::s(text)), vec![], vec![], 2);
+        c.case(h64(&key), true, h64(&"comma"));
+        if let Some(jq::Ev::Out(got)) = out.first() {
+            // rejected is fine (RFC 3339 has no comma); accepted must not be answered with another instant
+            if !is_err(got) && !got.f64().map_or(false, |f| close(f, *s, *us)) {
+                run.violation(&key, json!({"text": text, "what": "accepted, but answered with a different instant", "model_epoch": s, "model_micros": us, "impl": got.to_string()}));
+            }
+        }
+    }
     for (text, exp) in &texts {
         let key = format!("fromdate {text:?}");
         let out = jq::run_trace(&pi, jq::to_val(&rv::s(text)), vec![], vec![], 2);
